@@ -170,6 +170,12 @@ func runC17(c *ctx) error {
 			}
 		case 2, 3:
 			org, name := randName(rng, false), randName(rng, true)
+			if rng.Intn(8) == 0 {
+				// an organisation named like a host or like the default organisation is still an organisation: the
+				// documented two-segment rule applies (and its result, having three segments, is then left alone)
+				org = core.Pick(rng, []string{"github.com", "gitlab.com", "buildkite-plugins", "bitbucket.org"})
+				c.res.Hist("org/name.org-looks-like-a-host")
+			}
 			s := org + "/" + name + ref
 			check(s, "org/name")
 			c.res.OracleChecks++
@@ -233,7 +239,7 @@ func runC17(c *ctx) error {
 			}
 		}
 	}
-	for _, s := range []string{"", "#", "#ref", "a#", "a##b", "a#b#c", "a/", "a//b", "*", "a:b", ":a", "1a", "+a", "a b", "a/b:c", "a:b/c", "-x", "github.com/a/b", "docker#v1", "a/b#c/d"} {
+	for _, s := range []string{"", "#", "#ref", "a#", "a##b", "a#b#c", "a/", "a//b", "*", "a:b", ":a", "1a", "+a", "a b", "a/b:c", "a:b/c", "-x", "github.com/a/b", "docker#v1", "a/b#c/d", "github.com/thing", "github.com/thing#v1", "github.com", "buildkite-plugins/docker", "github.com/x-buildkite-plugin"} {
 		check(s, "edge")
 	}
 	c.res.Rule = "sources built from the documented forms (name, org/name, host prefix, scheme, scp-style, POSIX and Windows paths; optional git-legal refs with 1-3 components) with the expected result computed by construction, plus free-form strings over the domain alphabet and a malformed stream; idempotence re-applied to every result inside the domain. Non-trivial = the source is rewritten; distinct by the source string."
